@@ -152,6 +152,19 @@ func planC12(tier string, root *simcore.RNG) *plan {
 			}
 		}
 	}
+	// part 1d: every resolution from 2 to 45 cells for a cube and a non-cubic model with
+	// the uniform renderer (layer sizes that are and are not multiples of the batch size)
+	for cells := 2; cells <= 45; cells++ {
+		for _, model := range []string{"cube", "sphere-box"} {
+			if !thorough && model != "cube" && cells%3 != 0 {
+				continue
+			}
+			r := root.Fork()
+			j := Job{ID: 1, Kind: "mcu", Sink: pick(r, []string{"tri", "stl"}), Model: model, Cells: cells}
+			pl.scenarios = append(pl.scenarios, &Scenario{Prop: "C12", Family: "fault", Seed: r.Uint64(), Groups: [][]Job{{j}},
+				Sites: map[string]uint32{"close": 1, "mc.sent": 1, "cons.tri": 1, "cons.stl": 1, "cons.stl.flush": 1}, Sched: Sched{Policy: "fifo"}, Env: genEnv(r), Note: "resolution-sweep"})
+		}
+	}
 	// part 1b: a failing sink next to healthy renders in the same process
 	// (they share the worker pool and the evaluation channel)
 	npairs := 40
@@ -279,6 +292,9 @@ func planC12(tier string, root *simcore.RNG) *plan {
 			return true, fmt.Sprintf("census/%d", o.sc.Seed)
 		}
 		j := &o.sc.Groups[0][0]
+		if o.sc.Note == "resolution-sweep" {
+			return true, fmt.Sprintf("sweep/%s/%d", j.Model, j.Cells)
+		}
 		if len(o.sc.Groups[0]) > 1 {
 			return true, fmt.Sprintf("pair/%d", o.sc.Seed)
 		}
